@@ -138,5 +138,61 @@ def okMArgs (S : Side) : Exprs → Bool
   | .cons e r => okM S e && okMArgs S r
 end
 
+/-- an expression the type checker accepted (any type) that satisfies the Metal side conditions -/
+def okExprM (S : Side) (e : Expr) : Bool := (typeOf S.sig S.vty e).isSome && okM S e
+
+/-- …of the given type -/
+def okExprTM (S : Side) (t : Ty) (e : Expr) : Bool :=
+  (match typeOf S.sig S.vty e with | some t' => decide (t' = t) | none => false) && okM S e
+
+def okOptM (S : Side) : Option Expr → Bool
+  | none => true
+  | some e => okExprM S e
+
+def okVarDefM (S : Side) (id : Nat) : Option Expr → Bool
+  | none => S.vis (.loc id)
+  | some e => S.vis (.loc id) && okExprTM S (S.vty (.loc id)) e
+
+def okForInitM (S : Side) : ForInit → Bool
+  | .empty => true
+  | .expr e => okExprM S e
+  | .defs ds => ds.all fun d => okVarDefM S d.1 d.2
+
+/-- a `case` label under a `switch` on type `T`: a typed constant of that type, or an `IntLiteral` a `long` can hold -/
+def labelOK (T : Ty) (c : Const) : Bool :=
+  (decide (T = .int) || decide (T = .uint)) &&
+  match c with
+  | .intLit v => decide (-9223372036854775808 < v) && decide (v < 9223372036854775808)
+  | .int32 _ => decide (T = .int)
+  | .uint32 _ => decide (T = .uint)
+  | _ => false
+
+mutual
+/-- statements the type checker accepted inside a function returning `rt`, with the Metal side conditions; `lt` = the
+type of the controlling expression when the statement sits directly in the block of a `switch` -/
+def wtStmtM (S : Side) (rt : Ty) (lt : Option Ty) : Stmt → Bool
+  | .expr e => okExprM S e
+  | .var id init => okVarDefM S id init
+  | .block b => wtStmtsM S rt none b
+  | .ifThen c b => okExprM S c && wtStmtsM S rt none b
+  | .ifElse c t f => okExprM S c && wtStmtsM S rt none t && wtStmtsM S rt none f
+  | .for init cond inc b => okForInitM S init && okOptM S cond && okOptM S inc && wtStmtsM S rt none b
+  | .while c b => okExprM S c && wtStmtsM S rt none b
+  | .doWhile b c => wtStmtsM S rt none b && okExprM S c
+  | .break => true
+  | .continue => true
+  | .ret none => true
+  | .ret (some e) => okExprTM S rt e
+  | .switch T c b => okExprTM S T c && !isMin c && (decide (T = .int) || decide (T = .uint)) && wtStmtsM S rt (some T) b
+  | .caseLabel c =>
+    match lt with
+    | some T => labelOK T c
+    | none => false
+  | .defaultLabel => lt.isSome
+def wtStmtsM (S : Side) (rt : Ty) (lt : Option Ty) : Stmts → Bool
+  | .nil => true
+  | .cons s r => wtStmtM S rt lt s && wtStmtsM S rt lt r
+end
+
 end Ir
 end RsslVerif.Spec.Sem
